@@ -109,6 +109,18 @@ def run_check(pid: str, tier: str, seed: int) -> int:
             if bad:
                 broken.append(f"theorem {t} depends on axioms {bad}")
     discharged = sum(1 for t in theorems if build.ok and not [a for a in assum.get(t, ["?"]) if a not in lib.ALLOWED_AXIOMS])
+    # thorough tier: the independent checker re-checks the compiled property file and everything it depends on and
+    # prints the axioms / guard, positivity and universe escapes it relies on
+    coqchk_summary = None
+    if tier == "thorough" and build.ok and (lib.COQ / "props" / f"{pid}.vo").exists():
+        r = lib.sh(f"timeout 1500 coqchk -silent -o -Q . Stab Stab.props.{pid}", cwd=lib.COQ, timeout=1600)
+        txt = r.stdout[-1500:]
+        coqchk_summary = " ".join(txt.split())[-600:]
+        import re as _re2
+        ok = r.returncode == 0 and all(_re2.search(pat + r":\s*<none>", txt) for pat in (
+            r"Axioms", r"relying on type-in-type", r"relying on unsafe \(co\)fixpoints", r"positivity is assumed"))
+        if not ok:
+            broken.append("coqchk: the independent checker reports axioms or unchecked constants: " + coqchk_summary)
 
     # 3. correspondence + monitors
     ctx.broken = broken
@@ -172,7 +184,8 @@ def run_check(pid: str, tier: str, seed: int) -> int:
         "obligations": len(theorems),
         "discharged": discharged,
         "checker_cmd": "cd /verif/coq && coq_makefile -f _CoqProject -o Makefile && make " + " ".join(targets)
-                       + "  (coqc 8.16.1, full .vo; Print Assumptions per theorem)",
+                       + "  (coqc 8.16.1, full .vo; Print Assumptions per theorem"
+                       + ("; coqchk -o: " + coqchk_summary if coqchk_summary else "") + ")",
         "trusted_base": getattr(mod, "TRUSTED_BASE", []) + [
             "Coq 8.16.1 kernel (coqc; vm_compute used, native_compute not used)",
             "harness/translate.py (Python ast -> coq/gen/*.v, fail-closed)",
